@@ -423,6 +423,11 @@ class Tr:
             if bc:
                 raise Untranslatable(f"fallible element test in {src}")
             return b, f"(List.{fn} {lst} (fun {pat} => decide {cc}))", "Bool"
+        if fn == "list" and len(node.args) == 1:
+            b, c, t = self.E(node.args[0], env)
+            if isinstance(t, tuple) and t[0] == "List":
+                return b, c, t
+            raise Untranslatable(f"list() of {t}")
         if fn == "reversed" and len(node.args) == 1:
             b, c, t = self.E(node.args[0], env)
             if not (isinstance(t, tuple) and t[0] == "List"):
@@ -793,6 +798,21 @@ class Tr:
                 if not (len(call.args) == 1 and isinstance(call.args[0], ast.Constant) and call.args[0].value == 0):
                     raise Untranslatable("only pop(0) is supported")
                 return [f"let {nm} ← Py.pop0 {nm}"] + self.T(rest, env, k, loop)
+        if (isinstance(f, ast.Attribute) and f.attr == "sort" and not call.args and len(call.keywords) == 1
+                and call.keywords[0].arg == "key" and isinstance(call.keywords[0].value, ast.Lambda)
+                and len(call.keywords[0].value.args.args) == 1):
+            # xs.sort(key=lambda m: <int expression>): Python's sort is stable
+            nm = self.target_name(f.value) if not isinstance(f.value, ast.Name) else f.value.id
+            if nm not in env or not (isinstance(env[nm], tuple) and env[nm][0] == "List"):
+                raise Untranslatable(f"sort of {nm}")
+            lam = call.keywords[0].value
+            v = lam.args.args[0].arg
+            e2 = dict(env)
+            e2[v] = env[nm][1]
+            bk, ck, tk = self.E(lam.body, e2)
+            if bk or tk != "Int":
+                raise Untranslatable("sort key must be a total integer expression")
+            return [f"let {nm} := Py.sortByKey (fun {v} => {ck}) {nm}"] + self.T(rest, env, k, loop)
         fn = dotted(f)
         if fn in self.calls and isinstance(self.calls[fn], dict) and self.calls[fn].get("stmt"):
             # a translated procedure that updates fields: {"lean":…, "args":[…], "stmt": True, "updates": [fields]}
@@ -1163,6 +1183,42 @@ def find_function(tree, qual):
     return node if isinstance(node, ast.FunctionDef) else None
 
 
+def slice_function(fn, spec):
+    """a consecutive run of statements inside `fn` (from the statement whose source starts with slice["start"] to the
+    one that starts with slice["end"], in the same block) as a function of the declared parameters that returns the
+    declared result variables"""
+    sl = spec["slice"]
+
+    def blocks(node):
+        for fld in ("body", "orelse", "finalbody"):
+            b = getattr(node, fld, None)
+            if isinstance(b, list) and b and isinstance(b[0], ast.stmt):
+                yield b
+                for st in b:
+                    yield from blocks(st)
+
+    for block in blocks(fn):
+        srcs = [ast.unparse(st) for st in block]
+        starts = [i for i, t in enumerate(srcs) if t.startswith(sl["start"])]
+        if not starts:
+            continue
+        i = starts[0]
+        ends = [j for j in range(i, len(srcs)) if srcs[j].startswith(sl["end"])]
+        if not ends:
+            raise Untranslatable(f"slice end {sl['end']!r} not found after {sl['start']!r}")
+        body = list(block[i:ends[0] + 1])
+        names = list(sl["result"])
+        ret = ast.Return(value=ast.Name(id=names[0], ctx=ast.Load()) if len(names) == 1
+                         else ast.Tuple(elts=[ast.Name(id=n, ctx=ast.Load()) for n in names], ctx=ast.Load()))
+        new = ast.FunctionDef(name=fn.name, args=ast.arguments(
+            posonlyargs=[], args=[ast.arg(arg=a) for a in spec.get("params", {})], kwonlyargs=[], kw_defaults=[], defaults=[]),
+            body=body + [ret], decorator_list=[], type_params=[])
+        ast.copy_location(new, fn)
+        ast.fix_missing_locations(new)
+        return new
+    raise Untranslatable(f"slice start {sl['start']!r} not found in {spec['qual']}")
+
+
 def translate_spec(spec, src_root):
     """returns (lean text, error or None)"""
     path = os.path.join(src_root, "finam", spec["path"])
@@ -1173,6 +1229,8 @@ def translate_spec(spec, src_root):
         fn = find_function(tree, spec["qual"])
         if fn is None:
             raise Untranslatable(f"function {spec['qual']} not found in {spec['path']}")
+        if "slice" in spec:
+            fn = slice_function(fn, spec)
         text = Tr(spec, fn).translate()
         deps = sorted({h["lean"] for h in spec.get("calls", {}).values() if isinstance(h, dict)} - {spec["lean"]})
         header = header.replace("import FinamModel.PyPrelude\n", "import FinamModel.PyPrelude\n"
